@@ -1,5 +1,5 @@
 (* C02 — Positional pseudo-classes implement An+B exactly.  Statements only. *)
-From SV Require Import Base Regex Tree IR Lit Inputs Match NthFacts.
+From SV Require Import Base Regex Tree IR Lit Inputs Match MemoFacts NthFacts NthProof HistFacts NthElem.
 Local Open Scope Z_scope.
 
 (* the closed form IS "some n >= 0 with A*n+B = position" *)
@@ -8,20 +8,35 @@ Theorem C02_closed_form : forall a b pos,
 Proof. exact nth_closed_spec. Qed.
 Print Assumptions C02_closed_form.
 
-(* FULL STATEMENT (all integers, all sibling sequences):
-     forall a b var n walk pos, pos_of walk 0 = Some pos -> Z.of_nat (length walk) <= n ->
-       nth_pure a b var n walk = Some (nth_closed a b var pos).
-   Proved so far for the bounded domain below (by computation in the kernel); the unbounded
-   statement is covered by the correspondence runs and labelled partial in the evidence. *)
-Theorem C02_nth_exact_partial : forall a b var w,
-  In a (zrange (-12) 12) -> In b (zrange (-12) 12) -> In w (walks 8) ->
-  check_one a b var w = true.
-Proof. exact (check_all_sound 12 8 nth_core_exact_bounded). Qed.
-Print Assumptions C02_nth_exact_partial.
+(* The index arithmetic, the bound-adjustment loop and the sibling walk (Match.nth_core, the model of
+   css_match.match_nth:963-1062): for ALL integers A and B, both forms (An+B and a plain index), EVERY sibling walk
+   in which the element occurs and is counted at position pos (however many non-counted nodes are interleaved),
+   and any declared child count >= pos, the loop terminates within its fuel and answers exactly the closed form. *)
+Theorem C02_nth_exact : forall a b var nchildren walk pos,
+  pos_of walk 0 = Some pos -> pos <= nchildren ->
+  nth_pure a b var nchildren walk = Some (nth_closed a b var pos).
+Proof. exact nth_core_exact. Qed.
+Print Assumptions C02_nth_exact.
+
+(* One An+B record on an element, any `of S` list, forward or -last-, child or -of-type, from ANY consistent
+   memo: the answer is the closed form at the element's position among the counted siblings (sib_val: element
+   nodes only; matching S; of the same type), provided no sibling's `of S` evaluation raises. *)
+Theorem C02_match_nth_one : forall bidi cx f0 e p a var b of_type (last : bool) s m pos,
+  let f := S f0 in
+  good cx m ->
+  let sibs := sibs_of cx p in
+  let walk := if last then rev sibs else sibs in
+  (forall q n, In (q, n) sibs -> is_elem n = true -> sl_sels s <> [] -> sval bidi cx f e s q <> None) ->
+  (sl_sels s <> [] -> sval bidi cx f e s p = Some true) ->
+  pos_of (map (sib_val bidi cx f e p of_type s) walk) 0 = Some pos ->
+  exists m', match_nth bidi cx (S f) e p [SNth a var b of_type last s] m = Ok (nth_closed a b var pos, m') /\ good cx m'.
+Proof. exact match_nth_one. Qed.
+Print Assumptions C02_match_nth_one.
 
 Example C02_nonvacuous :
   nth_pure 2 1 true 5 [(true, false); (false, false); (true, false); (true, true); (true, false)] = Some true /\
   nth_pure 1 2 true 2 [(true, false); (true, true)] = Some true /\        (* li:nth-child(n+2), two siblings, no text *)
   nth_pure 2 (-2) true 4 [(true, false); (true, true)] = Some true /\     (* 2n-2 *)
-  nth_pure (-1) 3 true 9 [(true, false); (true, false); (true, false); (true, true)] = Some false.
+  nth_pure (-1) 3 true 9 [(true, false); (true, false); (true, false); (true, true)] = Some false /\
+  pos_of [(true, false); (false, false); (true, false); (true, true); (true, false)] 0 = Some 3.
 Proof. repeat split; vm_compute; reflexivity. Qed.
